@@ -31,7 +31,7 @@ def _refcnt(t, *names):
 def _ty_is_owned_ptr(ty):
     """type of an owned counted pointer value: the generic T / Self, or a std pointer kind"""
     ty = ty.strip()
-    return ty in ('T', 'Self') or ty.startswith(('std::sync::Arc<', 'std::rc::Rc<', 'std::sync::Weak<', 'std::rc::Weak<', 'std::option::Option<T>', 'std::option::Option<std::sync::Arc<', 'std::option::Option<std::rc::Rc<'))
+    return U.is_refcnt_param(ty) or any(ty == 'std::option::Option<%s>' % p_ for p_ in U.REFCNT_PARAMS) or ty.startswith(('std::sync::Arc<', 'std::rc::Rc<', 'std::sync::Weak<', 'std::rc::Weak<', 'std::option::Option<T>', 'std::option::Option<std::sync::Arc<', 'std::option::Option<std::rc::Rc<'))
 
 
 def _arg_ty(t, i):
@@ -370,7 +370,7 @@ def user_call_kind(t):
     if c.get('name') == 'drop' and ('mem::ManuallyDrop' in c.get('path', '') or c.get('path', '').endswith('mem::drop')):
         tys = t.get('arg_tys') or ['']
         a = (c.get('args') or [''])[0]
-        if a in ('T', 'Self') or '<T' in a or 'T>' in a or ' T' in a or a.endswith('Guard<T, S>'):
+        if a in ('T', 'Self') or '<T' in a or 'T>' in a or ' T' in a or a.endswith('Guard<T, S>') or U.mentions_refcnt_param(a):
             return 'drop of a generic value'
         if re.fullmatch(r'[A-Z][A-Za-z0-9]*', a or ''):
             # a bare type parameter (`current: C` handed in by value: a Guard, an Arc — its destructor may be the pointee's)
@@ -732,7 +732,7 @@ def rule_return_slot(fx, col):
     lib = fx.lib
     def carries(ty):
         # (also inside a wrapper: Result<T, Guard<..>>, Option<T>, a tuple)
-        return 'HybridProtection<' in ty or bool(re.search(r'(^|[<(, ])Guard<', ty)) or ty == 'T' or 'Protected' in ty or ty.startswith('std::option::Option<T>')
+        return 'HybridProtection<' in ty or bool(re.search(r'(^|[<(, ])Guard<', ty)) or U.is_refcnt_param(ty) or 'Protected' in ty or any(ty.startswith('std::option::Option<%s>' % p_) for p_ in U.REFCNT_PARAMS)
     n = 0
     # (helpers that are spliced into their callers for the other rules are functions with a return place of their own: looked at here)
     for b in lib.all_bodies:
